@@ -1234,7 +1234,34 @@ func (r *c18Run) opExchange(c *cursor) *Violation {
 }
 
 // c18Filt is a generic filter object that lives across steps, with its configuration mirrored on the core side.
+// flt0 drives generic.Filter0 / Query0 (no component access) through the filterDriver interface.
+type flt0 struct{ f *generic.Filter0 }
+
+func (f *flt0) With(c ...generic.Comp)                      { f.f.With(c...) }
+func (f *flt0) Without(c ...generic.Comp)                   { f.f.Without(c...) }
+func (f *flt0) Optional(c ...generic.Comp)                  {}
+func (f *flt0) Exclusive()                                  { f.f.Exclusive() }
+func (f *flt0) WithRelation(c generic.Comp, t []ecs.Entity) { f.f.WithRelation(c, t...) }
+func (f *flt0) Register(w *ecs.World)                       { f.f.Register(w) }
+func (f *flt0) Unregister(w *ecs.World)                     { f.f.Unregister(w) }
+func (f *flt0) Filter(w *ecs.World, t []ecs.Entity) ecs.Filter {
+	return f.f.Filter(w, t...)
+}
+func (f *flt0) Query(w *ecs.World, t []ecs.Entity, withRel bool) qres {
+	q := f.f.Query(w, t...)
+	r := qres{count: q.Count(), hasRel: withRel}
+	for q.Next() {
+		r.ents = append(r.ents, q.Entity())
+		r.ptrs = append(r.ptrs, nil)
+		if withRel {
+			r.rel = append(r.rel, q.Relation())
+		}
+	}
+	return r
+}
+
 type c18Filt struct {
+	arity0      bool
 	f           filterDriver
 	include     []int
 	optional    []int
@@ -1258,12 +1285,18 @@ func (r *c18Run) opFilter(c *cursor) *Violation {
 		c.n(1)
 	}
 	if r.filt == nil {
-		r.filt = &c18Filt{f: r.drv.NewFilter(), include: append([]int{}, r.mapT...), rel: -1}
-		r.Concrete = append(r.Concrete, "new FilterN")
+		if c.n(100) < 12 {
+			r.filt = &c18Filt{arity0: true, f: &flt0{f: generic.NewFilter0()}, rel: -1}
+			r.Concrete = append(r.Concrete, "new Filter0")
+			r.stats["filter0-used"]++
+		} else {
+			r.filt = &c18Filt{f: r.drv.NewFilter(), include: append([]int{}, r.mapT...), rel: -1}
+			r.Concrete = append(r.Concrete, "new FilterN")
+		}
 	}
 	fl := r.filt
 	f := fl.f
-	inMap := func(t int) bool { return contains2(r.mapT, t) }
+	inMap := func(t int) bool { return !fl.arity0 && contains2(r.mapT, t) }
 	coreFilter := func(target *ecs.Entity) ecs.Filter {
 		var inc []int
 		for _, t := range fl.include {
@@ -1317,7 +1350,7 @@ func (r *c18Run) opFilter(c *cursor) *Violation {
 				r.Concrete = append(r.Concrete, fmt.Sprintf("filter.Without(%v)", c18Types[t]))
 			}
 		case 2:
-			if len(r.mapT) > 0 {
+			if len(r.mapT) > 0 && !fl.arity0 {
 				o := r.mapT[c.n(len(r.mapT))]
 				if o != fl.rel && o < 12 {
 					f.Optional(comps(o))
@@ -1332,7 +1365,7 @@ func (r *c18Run) opFilter(c *cursor) *Violation {
 				r.Concrete = append(r.Concrete, "filter.Exclusive()")
 			}
 		case 4:
-			if r.relT >= 0 && fl.rel < 0 && !contains2(fl.optional, r.relT) {
+			if r.relT >= 0 && fl.rel < 0 && !fl.arity0 && !contains2(fl.optional, r.relT) {
 				fl.rel = r.relT
 				if c.n(3) == 0 {
 					tg, _ := r.pick(c)
@@ -1400,8 +1433,10 @@ func (r *c18Run) opFilter(c *cursor) *Violation {
 		opt[o] = true
 	}
 	for i, e := range gq.ents {
-		if v := r.checkPtrs("QueryN.Get", e, gq.ptrs[i], opt); v != nil {
-			return v
+		if !fl.arity0 {
+			if v := r.checkPtrs("QueryN.Get", e, gq.ptrs[i], opt); v != nil {
+				return v
+			}
 		}
 		if withRel && gq.rel[i] != K.Relations().Get(e, r.K.ids[fl.rel]) {
 			return r.viol("QueryN.Relation = %v, Relations.Get = %v", gq.rel[i], K.Relations().Get(e, r.K.ids[fl.rel]))
